@@ -28,7 +28,7 @@ RULE = ("per run a history of 3-9 operations over up to 3 BEC2 files sharing a p
 REAL = ["bec2format.bec2file", "bec2format.bf3file", "bec2format.crypto", "register_crypto_plugin", "pyaes", "ecdsa"]
 STUBS = ["medium: SimFS", "RNG: SimRng (never repeats, logs call-site class)", "key-generation observer",
          "device model: RefAES/RefCRC/RefP256"]
-PROBES = ["runs-with-assertions-disabled", "block-with-unknown-tag", "writer-keystore", "same-object-two-writer-threads", "fork-child-and-parent-draw-keys", "bf3-object-shared-between-files", "splice-insert-same-tag", "keyless-constructor", "repeated-write-same-object", "rewrite-with-opaque-block", "splice-different-keys",
+PROBES = ["runs-with-assertions-disabled", "public-only-entry-while-reading", "peer-returns-short-key-payload", "block-with-unknown-tag", "writer-keystore", "same-object-two-writer-threads", "fork-child-and-parent-draw-keys", "bf3-object-shared-between-files", "splice-insert-same-tag", "keyless-constructor", "repeated-write-same-object", "rewrite-with-opaque-block", "splice-different-keys",
           "splice-equal-keys", "splice-rejected", "ecc-default-recipient-unwrapped", "three-blocks-unwrapped",
           "two-files-distinct-keys", "ephemeral-points-compared"]
 ASSUMPTIONS = ["'rejected' for a spliced header means: read with decryptors for both blocks raises"]
@@ -419,6 +419,13 @@ def run(case):
                     continue
                 fs.restart()
                 decs = [dec_all[b] for b in sub if b in dec_all]
+                if case.get("keystore"):
+                    # the list used for writing is reused for reading: public-key-only ECC encryptors of blocks for
+                    # which no private key is supplied are in it too (they cannot open anything)
+                    for b in info["blocks"]:
+                        if b not in sub and b in wenc_by and type(wenc_by[b]) is bf.EccEncryptor:
+                            decs.append(wenc_by[b])
+                            out.probes["public-only-entry-while-reading"] += 1
                 try:
                     got = bf.Bec2File.read_file(name, decs, True)
                 except SimCrash:
@@ -526,6 +533,17 @@ def run(case):
                     continue
                 decs = [dec_all[b]] + [dec_all[x] for x in others]
                 same = A["key"] == B["key"]
+                if pool[b]["t"] == "cust" and nops % 2 == 0:
+                    # the customer-key unit (a pluggable peer) hands back an empty or short payload: the key this
+                    # block "wraps" is then certainly not the file's key
+                    n_ = [0, 5, 12, 0][(nops // 2) % 4]
+
+                    class ShortCust(bf.CustKeyEncryptor):
+                        def decrypt(self, ciphertext, n_=n_):
+                            return bytes(range(n_))
+                    decs = [ShortCust()] + [dec_all[x] for x in others]
+                    same = False
+                    out.probes["peer-returns-short-key-payload"] += 1
                 try:
                     got = bf.Bec2File.read_file("spliced.bec2", decs, True)
                     res = "accepted"
